@@ -190,6 +190,7 @@ def step (x : S) (ws : List String) : Option (S × String × List String) :=
     let y := (x.iterYield.lookup u).getD 0
     let x := { x with iterRecv := x.iterRecv.filter (·.1 != u), iterYield := x.iterYield.filter (·.1 != u) }
     if r == y then ok x else rej x s!"the iterator received {r} values but its loop body was handed {y}"
+  | ["nilyield", _] => ok x ["nil_yield_after_cancel"]   -- no unsubscribe event may precede it (the cancellation already withdrew)
   -- ---- unsubscribe
   | ["pubsub.unsub.try", u, n] => do
     let n ← kv n "n"
